@@ -1,0 +1,98 @@
+//go:build verif
+
+// Verification hooks (build tag "verif"): a simulated transport and direct
+// entry points into the link service and the stream framing, used by the
+// deterministic simulator under /verif.
+
+package face
+
+import (
+	"io"
+	"strconv"
+
+	defn "github.com/named-data/ndnd/fw/defn"
+	"github.com/named-data/ndnd/fw/dispatch"
+)
+
+// SimTransport is a transport whose "wire" is a callback.
+type SimTransport struct {
+	transportBase
+	OnSend  func(frame []byte) // called with a private copy of every frame sent
+	closeCh chan struct{}
+}
+
+// MakeSimTransport creates a simulated transport.
+func MakeSimTransport(remote *defn.URI, local *defn.URI, scope defn.Scope, linkType defn.LinkType, mtu int, onSend func([]byte)) *SimTransport {
+	t := new(SimTransport)
+	t.makeTransportBase(remote, local, PersistencyPersistent, scope, linkType, mtu)
+	t.OnSend = onSend
+	t.closeCh = make(chan struct{})
+	t.running.Store(true)
+	return t
+}
+
+func (t *SimTransport) String() string {
+	return "SimTransport, FaceID=" + strconv.FormatUint(t.faceID, 10)
+}
+
+func (t *SimTransport) SetPersistency(persistency Persistency) bool {
+	t.persistency = persistency
+	return true
+}
+
+func (t *SimTransport) GetSendQueueSize() uint64 { return 0 }
+
+func (t *SimTransport) sendFrame(frame []byte) {
+	t.nOutBytes += uint64(len(frame))
+	if t.OnSend != nil {
+		t.OnSend(append([]byte(nil), frame...))
+	}
+}
+
+func (t *SimTransport) runReceive() {
+	<-t.closeCh
+}
+
+// Close tears the simulated transport down.
+func (t *SimTransport) Close() {
+	if t.running.Swap(false) {
+		close(t.closeCh)
+	}
+}
+
+// VerifHandleFrame feeds one received frame to the real receive path.
+func (l *NDNLPLinkService) VerifHandleFrame(frame []byte) {
+	l.handleIncomingFrame(frame)
+}
+
+// VerifSendNow runs the real send path (fragmentation, LP encoding) synchronously.
+func (l *NDNLPLinkService) VerifSendNow(out dispatch.OutPkt) {
+	sendPacket(l, out)
+}
+
+// VerifPartialStoreSize reports the reassembly buffer population.
+func (l *NDNLPLinkService) VerifPartialStoreSize() (messages int, fragments int) {
+	for _, m := range l.partialMessageStore {
+		messages++
+		for _, f := range m {
+			if len(f) > 0 {
+				fragments++
+			}
+		}
+	}
+	return
+}
+
+// VerifReadTlvStream runs the real stream framing loop over a reader.
+func VerifReadTlvStream(reader io.Reader, onFrame func([]byte), ignoreError func(error) bool) error {
+	return readTlvStream(reader, onFrame, ignoreError)
+}
+
+// VerifResetFaceTable empties the face table and restarts face id allocation.
+func VerifResetFaceTable() {
+	FaceTable.faces.Range(func(k, _ any) bool {
+		FaceTable.faces.Delete(k)
+		return true
+	})
+	FaceTable.nextFaceID.Store(1)
+}
